@@ -131,4 +131,12 @@ Section Append.
   Definition reports (mk : nat -> D -> list (step astate unit)) (ds : list D) : list (list (step astate unit)) :=
     map (fun p => mk (fst p) (snd p)) (combine (seq 0 (length ds)) ds).
   Definition astate0 : astate := ([], fun _ => []).
+
+  (* custom_linter.go literally: plugin goroutine k calls Linter.Error once for EACH diagnostic of its
+     response, in order (for i := range resp.Errors { l.Error(...) }); all goroutines share l.Errors *)
+  Definition plugin_code (mk : nat -> D -> list (step astate unit)) (k : nat) (ds : list D) : list (step astate unit) :=
+    flat_map (mk k) ds.
+  Definition plugin_threads (mk : nat -> D -> list (step astate unit)) (dss : list (list D))
+    : list (list (step astate unit)) :=
+    map (fun p => plugin_code mk (fst p) (snd p)) (combine (seq 0 (length dss)) dss).
 End Append.
